@@ -23,10 +23,12 @@ from harness.common import VERIF, enc, run_driver
 from insights.core import dr, filters, plugins, spec_factory
 from insights.core.filters import add_filter, get_filters, apply_filters
 from insights.core.spec_factory import (SpecSet, RegistryPoint, simple_file, simple_command, first_of, glob_file, first_file,
-                                        foreach_collect,
+                                        foreach_collect, foreach_execute,
                                         TextFileProvider)
 from insights.core.plugins import datasource, parser, combiner
-from insights.core.context import HostContext, HostArchiveContext
+from insights.core.context import HostContext, HostArchiveContext, SerializedArchiveContext
+from insights.core.hydration import initialize_broker
+from insights.core.serde import Hydration
 from insights.core.exceptions import NoFilterException, ContentException, CalledProcessError
 from insights.core import Parser
 from insights.cleaner import Cleaner, DEFAULT_OBFUSCATIONS
@@ -60,6 +62,8 @@ PATTERN_POOL = ["foo", "bar", "-x", "a b", "[", "é"]
 
 def gen_spec(rng):
     """declarative description of a component graph; component ids = creation order"""
+    if rng.random() < 0.25:
+        return gen_spec_first_of(rng)
     sp = {"enabled": rng.random() >= 0.08, "points": [], "anon": [], "impls": [], "extra": [],
           "derived": [], "parsers": [], "combiners": [], "plain": 1}
     n = 0
@@ -163,6 +167,26 @@ def world_line_of(comps, enabled):
     for fl, deps, dpts in nodes:
         fs.append("%s/%s/%s" % (fl, ",".join(map(str, deps)) or "-", ",".join(map(str, dpts)) or "-"))
     return "\t".join(fs)
+
+
+def gen_spec_first_of(rng):
+    """2-3 filterable specs, EACH implemented through first_of([simple_file(..), simple_file(..)]) over its own
+    anonymous datasources.  All the anonymous simple_file objects (and the first_of objects before binding) share
+    one NAME, insights.core.spec_factory.<factory class>: look-ups must be per component OBJECT."""
+    k = rng.randint(2, 3)
+    sp = {"enabled": True, "points": [{"filterable": True, "raw": False} for _ in range(k)],
+          "anon": [{"filterable": None} for _ in range(2 * k)], "impls": [{}], "extra": [], "derived": [],
+          "parsers": [], "combiners": [], "plain": 1, "scenario": "first_of"}
+    n = 3 * k
+    for p in range(k):
+        sp["impls"][0][str(p)] = ["first_of", [k + 2 * p, k + 2 * p + 1]]
+        n += 1
+    sp["nds"] = n
+    for p in range(k):
+        sp["parsers"].append({"deps": [p]})
+        n += 1
+    sp["n"] = n + 1
+    return sp
 
 
 class World(object):
@@ -293,6 +317,20 @@ def gen_ops(rng, sp, quick):
     n = sp["n"]
     npts = len(sp["points"])
     ops = []
+    if sp.get("scenario") == "first_of":
+        # different filter sets per spec (through the spec, its first_of implementation or its parser), every
+        # anonymous datasource / implementation / spec looked up between the registrations
+        nds = sp["nds"]
+        for _ in range(rng.randint(6, 12)):
+            p = rng.randrange(npts)
+            if rng.random() < 0.45:
+                target = rng.choice([p, 3 * npts + p, nds + p])
+                ops.append(["add", target, {"t": "str", "v": "%s%d" % (rng.choice(PATTERN_POOL), p)}, rng.choice(["default", 1, 2, 3])])
+            else:
+                ops.append(["get", rng.choice([p, npts + 2 * p, npts + 2 * p + 1, 3 * npts + p, rng.randrange(nds)])])
+        ids = list(range(nds))
+        rng.shuffle(ids)
+        return ops + [["get", c] for c in ids]
     for _ in range(rng.randint(4, 12 if quick else 20)):
         r = rng.random()
         if r < 0.45:
@@ -1122,6 +1160,253 @@ def run_branch_case(rig, c):
     return impl, model, fails, tags
 
 
+# =========================================================================== (e) hydration of serialized archives
+
+HY_SHAPES = ["file", "first", "cmd", "glob", "fcollect", "fexec", "cfile-hand", "ccmd-hand", "dsp-hand", "file-plain"]
+HY_TOKENS = ["a", "b", "x", "-x", "ab", " ", ".", "é", "foo", "old", "new"]
+
+
+def gen_hydrate_case(rng):
+    """an archive with k specs of all shapes, written under an OLD filter set; DIFFERENT / additional filters are
+    registered afterwards (through the spec, a parser on it, an implementation of it); then it is hydrated"""
+    toks = rng.sample(HY_TOKENS, rng.randint(4, 6))
+
+    def lines():
+        return ["".join(rng.choice(toks) for _ in range(rng.choice([0, 1, 2, 2, 3]))) for _ in range(rng.choice([1, 2, 3, 4, 6, 8]))]
+
+    def key():
+        return "".join(rng.choice(toks) for _ in range(rng.choice([1, 1, 2]))) or "a"
+    specs = []
+    for shape in rng.sample(HY_SHAPES, rng.randint(2, 5)):
+        multi = shape in ("glob", "fcollect", "fexec", "cfile-hand", "ccmd-hand")
+        nfiles = rng.randint(1, 3) if multi else 1
+        filterable = shape != "file-plain" and rng.random() < 0.9
+        old = [[key(), rng.choice([1, 2, 10000, 10000])] for _ in range(rng.randint(1, 2))] if filterable else []
+        now = []
+        for _ in range(rng.choice([0, 1, 1, 2, 3])):
+            now.append([rng.choice(["spec", "spec", "parser", "impl"]), key(), rng.choice([1, 2, 3, 10000, 10000])])
+        specs.append({"shape": shape, "filterable": filterable, "files": [lines() for _ in range(nfiles)],
+                      "old": old, "now": now})
+    return {"kind": "hydrate", "same_process": rng.random() < 0.3, "specs": specs}
+
+
+def _mk_impl(shape, rels, ctxcls, brokers, base_broker):
+    """an implementation of the given shape reading the files `rels` (relative to the context root)"""
+    if shape in ("file", "file-plain"):
+        return simple_file(rels[0], context=ctxcls)
+    if shape == "first":
+        return first_file([rels[0] + ".missing", rels[0]], context=ctxcls)
+    if shape == "glob":
+        return glob_file(os.path.join(os.path.dirname(rels[0]), "*.txt"), context=ctxcls)
+
+    def names(broker):
+        return [os.path.basename(r) for r in rels]
+    names.__name__ = "names" + fresh("n")
+    datasource(ctxcls)(names)
+    b = dr.Broker()
+    for k in (HostContext, "cleaner"):
+        if k in base_broker:
+            b[k] = base_broker[k]
+    b[names] = [os.path.basename(r) for r in rels]
+    brokers.append(b)
+    if shape == "fcollect":
+        return foreach_collect(names, os.path.join(os.path.dirname(rels[0]), "%s"), context=ctxcls)
+    return None
+
+
+def run_hydrate_case(rig, c):
+    """returns impl answers, model lines, [(description, finding)], tags"""
+    tag = fresh("h")
+    host_root = os.path.join(rig.dir, "hr" + tag)       # the "host" the archive is collected from
+    arch = os.path.join(rig.dir, "ar" + tag)            # the serialized archive
+    os.makedirs(host_root)
+    os.makedirs(arch)
+    hctx = HostContext(root=host_root)
+    hb = dr.Broker()
+    hb[HostContext] = hctx
+    hb["cleaner"] = rig.cleaner
+    hyd = Hydration(root=arch, ctx=hctx)
+    tags, fails = [], []
+    old_pts, new_pts, new_targets = [], [], []
+    # ---- the spec sets: OLD (collection time) and NEW (analysis time; the same objects when same_process)
+    old_d, new_d = {}, {}
+    for i, sp in enumerate(c["specs"]):
+        multi = sp["shape"] in ("glob", "fcollect", "fexec", "cfile-hand", "ccmd-hand")
+        old_d["p%d" % i] = RegistryPoint(filterable=sp["filterable"], multi_output=multi, no_obfuscate=list(NO_OBF), no_redact=True)
+        new_d["p%d" % i] = RegistryPoint(filterable=sp["filterable"], multi_output=multi, no_obfuscate=list(NO_OBF), no_redact=True)
+    OLD = type("O" + tag, (SpecSet,), old_d)
+    NEW = OLD if c["same_process"] else type("N" + tag, (SpecSet,), new_d)
+    impl_d = {}
+    for i, sp in enumerate(c["specs"]):
+        impl_d["p%d" % i] = simple_file("nowhere/%s/%d" % (tag, i), context=SerializedArchiveContext)
+    NEWI = type("NI" + tag, (NEW,), impl_d)
+    # ---- write the archive
+    for i, sp in enumerate(c["specs"]):
+        opt, npt = getattr(OLD, "p%d" % i), getattr(NEW, "p%d" % i)
+        old_pts.append(opt)
+        new_pts.append(npt)
+        shape = sp["shape"]
+        tags.append("shape:" + shape)
+        name_old = dr.get_name(opt)
+        for k, m in sp["old"]:
+            add_filter(opt, k, m)
+        sub = "s%d" % i
+        rels = [os.path.join(sub, "f%d.txt" % j) for j in range(len(sp["files"]))]
+        os.makedirs(os.path.join(host_root, sub))
+        for r, ls in zip(rels, sp["files"]):
+            with open(os.path.join(host_root, r), "wb") as f:
+                f.write("".join(l + "\n" for l in ls).encode("utf-8"))
+        if shape.endswith("-hand"):
+            # hand-written documents: container specs (list branch) and DatasourceProvider
+            docs = []
+            for j, ls in enumerate(sp["files"]):
+                rel = os.path.join("insights_containers" if shape != "dsp-hand" else "", "c%s" % tag, sub, "f%d.txt" % j)
+                dst = os.path.join(arch, "data", rel)
+                os.makedirs(os.path.dirname(dst), exist_ok=True)
+                with open(dst, "wb") as f:
+                    f.write("\n".join(ls).encode("utf-8"))
+                if shape == "cfile-hand":
+                    docs.append({"type": "insights.core.spec_factory.ContainerFileProvider",
+                                 "object": {"save_as": False, "relative_path": rel, "rc": None, "cmd": "podman exec abc cat /f%d" % j,
+                                            "image": "img", "engine": "podman", "container_id": "abc"}})
+                elif shape == "ccmd-hand":
+                    docs.append({"type": "insights.core.spec_factory.ContainerCommandProvider",
+                                 "object": {"rc": None, "cmd": "podman exec abc cat /f%d" % j, "args": None, "save_as": False,
+                                            "relative_path": rel, "image": "img", "engine": "podman", "container_id": "abc"}})
+                else:
+                    docs.append({"type": "insights.core.spec_factory.DatasourceProvider",
+                                 "object": {"relative_path": rel, "save_as": None}})
+            doc = {"name": name_old, "exec_time": 0.0, "errors": [], "ser_time": 0.0,
+                   "results": docs[0] if shape == "dsp-hand" else docs}
+            os.makedirs(os.path.join(arch, "meta_data"), exist_ok=True)
+            with open(os.path.join(arch, "meta_data", name_old + ".json"), "w") as f:
+                json.dump(doc, f)
+        else:
+            # collected by the real code: implementation under HostContext, dehydrate -> serialize -> write()
+            brokers = []
+            if shape == "cmd":
+                impl = simple_command("/bin/cat %s" % os.path.join(host_root, rels[0]), context=HostContext)
+            elif shape == "fexec":
+                def names(broker):
+                    return None
+                names.__name__ = "names" + fresh("n")
+                datasource(HostContext)(names)
+                b = dr.Broker()
+                b[HostContext], b["cleaner"] = hctx, rig.cleaner
+                b[names] = [os.path.join(host_root, r) for r in rels]
+                brokers.append(b)
+                impl = foreach_execute(names, "/bin/cat %s", context=HostContext)
+            else:
+                impl = _mk_impl(shape, rels, HostContext, brokers, hb)
+            type("OI%d%s" % (i, tag), (OLD,), {"p%d" % i: impl})
+            b = brokers[0] if brokers else hb
+            try:
+                val = impl(b)
+            except (ContentException, NoFilterException):
+                val = None
+            if val is not None:
+                b2 = dr.Broker()
+                b2[opt] = val
+                b2.exec_times[opt] = 0.01
+                hyd.dehydrate(opt, b2)
+    with open(os.path.join(arch, "insights_archive.txt"), "w") as f:
+        f.write("x")
+    # ---- the archive as stored: per spec the meta document and the stored lines of every element
+    stored = []
+    for i, sp in enumerate(c["specs"]):
+        name_old, name_new = dr.get_name(old_pts[i]), dr.get_name(new_pts[i])
+        mp = os.path.join(arch, "meta_data", name_old + ".json")
+        if not os.path.exists(mp):
+            stored.append(None)
+            continue
+        doc = json.load(open(mp))
+        if name_new != name_old:
+            doc["name"] = name_new      # the same spec, defined in the analysing process
+            os.remove(mp)
+            with open(os.path.join(arch, "meta_data", name_new + ".json"), "w") as f:
+                json.dump(doc, f)
+        res = doc["results"]
+        if res is None:
+            stored.append(None)
+            continue
+        elems = res if isinstance(res, list) else [res]
+        files = []
+        for e in elems:
+            with open(os.path.join(arch, "data", e["object"]["relative_path"]), "rb") as f:
+                files.append(f.read().decode("utf-8").splitlines() if True else None)
+        stored.append(("M" if isinstance(res, list) else "S", files))
+    # ---- registrations AFTER the archive was written: through the spec, a parser on it, an implementation of it
+    expected = []
+    for i, sp in enumerate(c["specs"]):
+        npt = new_pts[i]
+        log = {}
+        if c["same_process"]:
+            for k, m in sp["old"]:
+                log[k] = max(log.get(k, m), m)
+        cls = type("HP%d%s" % (i, tag), (Parser,), {"parse_content": lambda self, content: None})
+        parser(npt)(cls)
+        for how, k, m in sp["now"]:
+            target = {"spec": npt, "parser": cls, "impl": getattr(NEWI, "p%d" % i)}[how]
+            try:
+                add_filter(target, k, m)
+                ok = True
+            except Exception:
+                ok = False          # the spec is not filterable
+            if ok and how != "impl":    # a hydrated provider knows its SPEC only: implementation-level filters do not reach it
+                log[k] = max(log.get(k, m), m)
+            tags.append("now:%s:%s" % (how, "ok" if ok else "refused"))
+        expected.append(sorted(log.items()))
+    # ---- hydrate through the public entry point and read every rebuilt provider
+    ctx, broker = initialize_broker(arch)
+    impl_out, model = [], []
+    if not isinstance(ctx, SerializedArchiveContext):
+        fails.append(("the archive was not recognised as a serialized archive: %r" % (ctx,), None))
+    for i, sp in enumerate(c["specs"]):
+        if stored[i] is None:
+            tags.append("stored:nothing")
+            if new_pts[i] in broker:
+                fails.append(("spec %d: nothing was stored but hydration produced a value" % i, None))
+            continue
+        shape_tag, files = stored[i]
+        tags.append("branch:" + ("list" if shape_tag == "M" else "single"))
+        val = broker.get(new_pts[i])
+        if val is None:
+            fails.append(("spec %d (%s): stored in the archive but missing after hydration" % (i, sp["shape"]), None))
+            continue
+        provs = val if isinstance(val, list) else [val]
+        if isinstance(val, list) != (shape_tag == "M") or len(provs) != len(files):
+            fails.append(("spec %d (%s): %d providers rebuilt for %d stored elements" % (i, sp["shape"], len(provs), len(files)), None))
+            continue
+        order = list(get_filters(new_pts[i], True).items())
+        if sorted(order) != expected[i]:
+            fails.append(("spec %d: filters in force %r, the registration log gives %r" % (i, sorted(order), expected[i]), None))
+        outs = []
+        for j, (pr, ls) in enumerate(zip(provs, files)):
+            out = list(pr.content)
+            outs.append(out)
+            name = "hydrated[%s, element %d of %d]" % (sp["shape"], j, len(files))
+            if expected[i]:
+                bad = content_oracle(name, ls, expected[i], out)
+                tags.append("element:filtered")
+            else:
+                bad = None if out == ls else "%s: no filter in force, the stored lines must come back unchanged" % name
+                tags.append("element:unfiltered-spec")
+            if bad:
+                fails.append((bad + " (filters in force for the spec: %r)" % (expected[i],), None))
+            if ls and any(l and not any(k in l for k, _ in expected[i]) for l in ls) and expected[i]:
+                tags.append("element:has-lines-of-an-older-filter-set")
+        impl_out.append(" / ".join(show_lines(o) for o in outs))
+        fields = ["hy", "1000000000", m_allow(order), shape_tag]
+        for j, ls in enumerate(files):
+            if j:
+                fields.append("|")
+            fields.extend(enc(l) for l in ls)
+        model.append("\t".join(fields))
+    shutil.rmtree(host_root, ignore_errors=True)
+    shutil.rmtree(arch, ignore_errors=True)
+    return impl_out, model, fails, tags
+
+
 # =========================================================================== corpus / witnesses
 
 def load_corpus():
@@ -1144,6 +1429,7 @@ def run(chk):
     n_bad = 300 if quick else 4000
     n_load = 400 if quick else 8000
     n_branch = 300 if quick else 6000
+    n_hydrate = 150 if quick else 3000
     chk.rule = ("(a) histories of 4-12 add_filter/get_filters/provider-construction operations over a fresh generated "
                 "component graph (1-3 registry points with random filterable/raw flags, 1-2 implementation classes using "
                 "simple_file/simple_command/first_of/shared datasource objects, derived datasources, parsers, combiners, "
@@ -1153,6 +1439,11 @@ def run(chk):
                 "same datasource through TextFileProvider under HostArchiveContext (simple_file and glob_file / multi-output), "
                 "look-ups, further registrations, clean_content / apply_filters / filter_content on the shared dict; "
                 "get_filters of all three components compared with the model after every step; non-trivial = at least two loads; "
+                "(e) hydrate: serialized archives with 2-5 specs of all shapes (simple_file, first_file, simple_command, glob_file, "
+                "foreach_collect, foreach_execute collected by the real dehydrate under HostContext with an OLD filter set; container "
+                "file/command lists and DatasourceProvider as hand-written documents), then different/additional filters registered "
+                "through the spec, a parser on it and an implementation, 70% into a second spec set (another process), hydrated with "
+                "hydration.initialize_broker, .content of every rebuilt provider compared per element; non-trivial = some element filtered; "
                 "(d) load branches: spec_factory.MAX_CONTENT_SIZE lowered to 256/1024/4096, files well below / just below / exactly at / "
                 "one byte above / just above / far above it (multi-byte characters included), providers made by simple_file, glob_file, "
                 "first_file and foreach_collect under HostArchiveContext (whole-file and truncated-tail branch + post-filter; stream() "
@@ -1171,19 +1462,20 @@ def run(chk):
     open(os.path.join(scratch, "f"), "w").write("x\n")
     rig = ContentRig()
     try:
-        _run(chk, rng, quick, n_hist, n_content, n_direct, n_bad, n_load, n_branch, scratch, rig)
+        _run(chk, rng, quick, n_hist, n_content, n_direct, n_bad, n_load, n_branch, n_hydrate, scratch, rig)
     finally:
         rig.close()
         shutil.rmtree(scratch, ignore_errors=True)
 
 
-def _run(chk, rng, quick, n_hist, n_content, n_direct, n_bad, n_load, n_branch, scratch, rig):
+def _run(chk, rng, quick, n_hist, n_content, n_direct, n_bad, n_load, n_branch, n_hydrate, scratch, rig):
     corpus = load_corpus()
 
     # ---- corpus: regression cases and the known-finding witness
     hist_cases = []
     load_cases = []
     branch_cases = []
+    hydrate_cases = []
     for c in corpus:
         if c["kind"] == "history":
             hist_cases.append((c["spec"], c["ops"]))
@@ -1193,6 +1485,9 @@ def _run(chk, rng, quick, n_hist, n_content, n_direct, n_bad, n_load, n_branch, 
             chk.witnesses.append(c["file"])
         elif c["kind"] == "branch":
             branch_cases.append(c)
+            chk.witnesses.append(c["file"])
+        elif c["kind"] == "hydrate":
+            hydrate_cases.append(c)
             chk.witnesses.append(c["file"])
         elif c["kind"] == "content":
             impl, model, fails, order = run_content_case(rig, c["lines"], [tuple(x) for x in c["allow"]], with_command=True)
@@ -1219,6 +1514,27 @@ def _run(chk, rng, quick, n_hist, n_content, n_direct, n_bad, n_load, n_branch, 
                     seen.add(fid)
                 else:
                     chk.failure("%s: %s" % (c["file"], desc), {"kind": "malformed", "bytes": c["bytes"], "allow": c["allow"]})
+
+    # ---- (e) serialized archives: written under an old filter set, hydrated under the current one
+    # (first: hydration finds components by NAME with a linear scan over everything registered so far)
+    for _ in range(n_hydrate):
+        hydrate_cases.append(gen_hydrate_case(rng))
+    cases, impl_all, model_all = [], [], []
+    for c in hydrate_cases:
+        impl, model, fails, tags = run_hydrate_case(rig, c)
+        clean = dict((k, v) for k, v in c.items() if k not in ("file", "note"))
+        chk.case(("hydrate", json.dumps(clean, sort_keys=True)), "element:filtered" in tags)
+        for t in tags:
+            chk.count("hydrate-" + t)
+        chk.count("hydrate-process:" + ("same" if c["same_process"] else "other"))
+        for desc, fid in fails:
+            chk.failure(desc, clean, finding=fid)
+        cases.extend([clean] * len(impl))
+        impl_all.extend(impl)
+        model_all.extend(model)
+    out = run_driver("C07", model_all)
+    chk.compare("hydrate", cases, impl_all, out)
+    chk.sample({"hydrate-case": [dict(shape=x["shape"], files=len(x["files"]), old=x["old"], now=x["now"]) for x in hydrate_cases[-1]["specs"]]})
 
     # ---- (a) histories
     for _ in range(n_hist):
@@ -1362,6 +1678,18 @@ def replay(data):
                 bad = True
         finally:
             shutil.rmtree(scratch, ignore_errors=True)
+    elif c["kind"] == "hydrate":
+        rig = ContentRig()
+        try:
+            impl, model, fails, tags = run_hydrate_case(rig, c)
+            out = run_driver("C07", model)
+            for a, b in zip(impl, out):
+                print("  impl =%s\n  model=%s%s" % (a[:300], b[:300], "" if a == b else "   <-- differ"))
+            for desc, fid in fails:
+                print("ORACLE: %s" % desc)
+                bad = True
+        finally:
+            rig.close()
     elif c["kind"] == "branch":
         rig = ContentRig()
         try:
